@@ -413,6 +413,10 @@ def _const_truth(e):
     if isinstance(e, ast.Compare) and len(e.ops) == 1 and isinstance(e.ops[0], (ast.Is, ast.IsNot)) \
             and isinstance(e.left, ast.Name) and isinstance(e.comparators[0], ast.Name) and e.left.id == e.comparators[0].id:
         return isinstance(e.ops[0], ast.Is)         # x is x
+    if isinstance(e, ast.Compare) and len(e.ops) == 1 and isinstance(e.ops[0], (ast.Is, ast.IsNot)) and isinstance(e.comparators[0], ast.Constant) \
+            and e.comparators[0].value is None and isinstance(e.left, (ast.BinOp, ast.UnaryOp)) \
+            and all(isinstance(n, (ast.Constant, ast.BinOp, ast.UnaryOp, ast.operator, ast.unaryop)) and not (isinstance(n, ast.Constant) and n.value is None) for n in ast.walk(e.left)):
+        return isinstance(e.ops[0], ast.IsNot)      # 1/3 is None: arithmetic of numbers is never None
     if isinstance(e, ast.Compare) and len(e.ops) == 1 and isinstance(e.left, ast.Constant) and isinstance(e.comparators[0], ast.Constant):
         a, b, op = e.left.value, e.comparators[0].value, e.ops[0]
         try:
@@ -768,7 +772,7 @@ class Normaliser:
         for node in tree.body:
             if isinstance(node, ast.Assign) and len(node.targets) == 1 and isinstance(node.targets[0], ast.Name):
                 nm = node.targets[0].id
-                if nm not in known and counts.get(nm) == 1 and is_const_expr(node.value):
+                if nm not in known and counts.get(nm) == 1 and (is_const_expr(node.value) or self._record_table(tree, node.value)):
                     consts[nm] = node.value
         # constants defined from earlier new constants
         changed = True
@@ -801,6 +805,28 @@ class Normaliser:
                     if isinstance(st, (ast.Assign, ast.AnnAssign)) and st.value is not None:
                         st.value = _Rename({}, consts).visit(st.value)
         self.log.append(f'N1 {path}: propagated new module constants {sorted(consts)}')
+
+    def _record_table(self, tree, value) -> bool:
+        """a tuple/list of named-tuple constructor calls whose arguments are literals or module-level functions / classes /
+        imports: the same rows wherever the name is read"""
+        if not (isinstance(value, (ast.Tuple, ast.List)) and value.elts):
+            return False
+        stable = set()
+        for top in tree.body:
+            if isinstance(top, (ast.FunctionDef, ast.ClassDef)):
+                stable.add(top.name)
+            elif isinstance(top, (ast.Import, ast.ImportFrom)):
+                stable |= {(al.asname or al.name).split('.')[0] for al in top.names}
+
+        def lit(a):
+            if isinstance(a, ast.Name):
+                return a.id in stable
+            return is_const_expr(a) and not any(isinstance(n, ast.Name) for n in ast.walk(a))
+        for row in value.elts:
+            if not (isinstance(row, ast.Call) and isinstance(row.func, ast.Name) and row.func.id in self.ntypes
+                    and all(lit(a) for a in row.args) and all(k.arg and lit(k.value) for k in row.keywords)):
+                return False
+        return True
 
     def _imported_constants(self, everywhere=False):
         """new module constants used from another module: `from .Constants import NAME` (or code inlined from the defining
@@ -1905,6 +1931,13 @@ class Normaliser:
                     if isinstance(b, list) and b and isinstance(b[0], ast.stmt) and not isinstance(st, (ast.FunctionDef, ast.ClassDef)):
                         setattr(st, name, comp(b))
                 nxt = stmts[i + 1] if i + 1 < len(stmts) else None
+                # guard clauses at the top of the loop body: `if not C: continue` + rest  ==  `if C: rest`
+                if isinstance(st, ast.Assign) and isinstance(nxt, ast.For) and not nxt.orelse:
+                    while len(nxt.body) >= 2 and isinstance(nxt.body[0], ast.If) and not nxt.body[0].orelse and len(nxt.body[0].body) == 1 \
+                            and isinstance(nxt.body[0].body[0], ast.Continue) \
+                            and not any(isinstance(n, ast.Continue) for b_ in nxt.body[1:] for n in ast.walk(b_)):
+                        g_ = nxt.body[0]
+                        nxt.body = [ast.copy_location(ast.If(test=_negate(g_.test), body=nxt.body[1:], orelse=[]), g_)]
                 if isinstance(st, ast.Assign) and len(st.targets) == 1 and isinstance(st.targets[0], ast.Name) and isinstance(st.value, ast.List) \
                         and not st.value.elts and isinstance(nxt, ast.For) and not nxt.orelse and len(nxt.body) == 1:
                     L = st.targets[0].id
@@ -1964,8 +1997,7 @@ class Normaliser:
         self._loops_and_tuples(path, qual, func, known)
 
     # ---------------------------------------------------------------- N7 tables, counters, named tuples
-    @staticmethod
-    def _table_elements(it, bound_in_body):
+    def _table_elements(self, it, bound_in_body):
         """element expressions of a literal table: (e1, e2, ..) / [..] / zip(lit, lit, ..); every leaf is atomic (constant,
         name, attribute path, slice(..) of constants) and not rebound in the loop body; None otherwise"""
         def atomic(e):
@@ -1981,6 +2013,9 @@ class Normaliser:
                 return all(isinstance(a, ast.Constant) or (isinstance(a, ast.UnaryOp) and isinstance(a.operand, ast.Constant)) for a in e.args)
             if isinstance(e, (ast.Tuple, ast.List)):
                 return all(atomic(x) for x in e.elts)
+            if isinstance(e, ast.Call) and isinstance(e.func, ast.Name) and e.func.id in (getattr(self, 'ntypes', None) or {}) \
+                    and not any(isinstance(a, ast.Starred) for a in e.args) and all(k.arg for k in e.keywords):
+                return all(atomic(a) for a in e.args) and all(atomic(k.value) for k in e.keywords)      # a record row
             # a pure expression over names the body neither rebinds nor writes into evaluates to the same value in every row
             if is_pure(e) and not any(isinstance(n, (ast.Call,)) and not _is_pure_call(n) for n in ast.walk(e)):
                 names = {n.id for n in ast.walk(e) if isinstance(n, ast.Name)}
@@ -2037,15 +2072,34 @@ class Normaliser:
                         if ra and ra[0] not in ('self',) and ra[0] not in tnames(st.target):
                             bound.add(ra[0])
                     elems = norm._table_elements(st.iter, bound | tnames(st.target))
+                    def own_continue(stmts):
+                        for x in stmts:
+                            if isinstance(x, ast.Continue):
+                                return True
+                            if isinstance(x, (ast.For, ast.While, ast.FunctionDef)):
+                                continue        # a continue in there belongs to the inner loop
+                            for nm_ in ('body', 'orelse', 'finalbody'):
+                                if own_continue(getattr(x, nm_, None) or []):
+                                    return True
+                            if isinstance(x, ast.Try) and any(own_continue(h.body) for h in x.handlers):
+                                return True
+                        return False
                     if elems is not None and len(elems) <= 16 and not (bound & tnames(st.target)) \
-                            and not any(isinstance(n, (ast.Lambda, ast.FunctionDef, ast.Continue)) for n in body_nodes):
+                            and not any(isinstance(n, (ast.Lambda, ast.FunctionDef)) for n in body_nodes) and not own_continue(st.body):
                         binds = [norm._bind_target(st.target, e) for e in elems]
                         breaks = [n for n in body_nodes if isinstance(n, ast.Break)]
+                        # new locals bound inside the body and dead after the loop get a name of their own in every copy, so that
+                        # each copy can be simplified on its own (forward substitution needs single bindings)
+                        private = {n.id for n in body_nodes if isinstance(n, ast.Name) and isinstance(n.ctx, ast.Store)} - known - later - tnames(st.target)
+                        private -= {n.id for s2 in stmts[:i] for n in ast.walk(s2) if isinstance(n, ast.Name)}
+
+                        def per_copy(k_):
+                            return {nm_: f'{nm_}__u{k_}' for nm_ in private}
                         if all(b is not None for b in binds):
                             if not breaks and not st.orelse:
-                                for b in binds:
+                                for k_, b in enumerate(binds):
                                     for b_ in st.body:
-                                        out.append(_Rename({}, b).visit(copy.deepcopy(b_)))
+                                        out.append(_Rename(per_copy(k_), b).visit(copy.deepcopy(b_)))
                                 out[:] = _canon_polarity(_prune_constant_tests(out))
                                 norm.log.append(f'N7 {path}::{qual}: loop over a literal table of {len(elems)} rows unrolled')
                                 continue
@@ -2053,10 +2107,10 @@ class Normaliser:
                             if len(st.body) == 1 and isinstance(st.body[0], ast.If) and not st.body[0].orelse and len(breaks) == 1 \
                                     and st.body[0].body and isinstance(st.body[0].body[-1], ast.Break):
                                 chain = list(st.orelse)
-                                for b in reversed(binds):
+                                for k_, b in reversed(list(enumerate(binds))):
                                     tmpl = copy.deepcopy(st.body[0])
                                     tmpl.body = tmpl.body[:-1] or [ast.copy_location(ast.Pass(), st)]
-                                    node = _Rename({}, b).visit(tmpl)
+                                    node = _Rename(per_copy(k_), b).visit(tmpl)
                                     node.orelse = chain
                                     chain = [node]
                                 out.extend(_canon_polarity(_prune_constant_tests(chain)))
@@ -2128,6 +2182,10 @@ class Normaliser:
             return out
         func.body = rec(func.body)
 
+        modfuncs = set()
+        if path in self.modules:
+            modfuncs = {top.name for top in self.modules[path].tree.body if isinstance(top, (ast.FunctionDef, ast.ClassDef))}
+
         # [f(a) for a in (b for b in IT if C(b))]  ->  [f(a) for a in IT if C(a)]
         class G(ast.NodeTransformer):
             def _flat(self, node):
@@ -2163,6 +2221,30 @@ class Normaliser:
                 self.generic_visit(node)
                 return self._flat(node)
 
+            def visit_Attribute(self, node):
+                self.generic_visit(node)
+                v = node.value
+                # NT(a, b, c).field  ->  the argument bound to that field (the row of an unrolled record table)
+                if isinstance(node.ctx, ast.Load) and isinstance(v, ast.Call) and isinstance(v.func, ast.Name) and v.func.id in (norm.ntypes or {}) \
+                        and not any(isinstance(a, ast.Starred) for a in v.args) and all(k.arg for k in v.keywords):
+                    flds = norm.ntypes[v.func.id]
+                    if node.attr in flds:
+                        i = flds.index(node.attr)
+                        if i < len(v.args):
+                            return v.args[i]
+                        for k in v.keywords:
+                            if k.arg == node.attr:
+                                return k.value
+                return node
+
+            def visit_Compare(self, node):
+                self.generic_visit(node)
+                # <module-level function or class> is None  ->  False
+                if len(node.ops) == 1 and isinstance(node.ops[0], (ast.Is, ast.IsNot)) and isinstance(node.left, ast.Name) and node.left.id in modfuncs \
+                        and isinstance(node.comparators[0], ast.Constant) and node.comparators[0].value is None and node.left.id not in known:
+                    return ast.copy_location(ast.Constant(value=isinstance(node.ops[0], ast.IsNot)), node)
+                return node
+
             def visit_Assign(self, node):
                 self.generic_visit(node)
                 # a, b = [x, y]  ->  a, b = (x, y): the list is consumed by the unpacking
@@ -2172,6 +2254,7 @@ class Normaliser:
                     node.value._kv_new = True
                 return node
         G().visit(func)
+        func.body = _canon_polarity(_prune_constant_tests(func.body)) or func.body
 
         # a, b = (x, y) left behind by the rewriting above -> a = x; b = y
         def resplit(stmts):
